@@ -38,9 +38,38 @@ def prop_concrete(name, tok, seed):
     return pty, val
 
 
-def to_fd(rec, seed=0, typemap=None, flip_be=None):
+DAQMX_OK = {"Uint8", "Int8", "Uint16", "Int16", "Uint32", "Int32", "Uint64", "Int64", "SingleFloat", "DoubleFloat"}
+
+
+def daqmx_plan(rec, typemap=None):
+    """The same abstract file stored as DAQmx raw data: every channel gets a raw buffer of its own (fixed for the whole
+    file, so that inherited indexes stay meaningful) and one format-changing scaler.  -> {path: (buffer, type)} or None
+    when the file has no such twin (interleaved segments, strings, wide types, a channel that changes type)."""
+    tm = typemap or {}
+    if rec["status"] != "ok":
+        return None
+    tys = {}
+    for s in rec["file"]:
+        if s["il"]:
+            return None
+        for o in s["layout"]:
+            if o["p"].count("/") == 2:
+                tys.setdefault(o["p"], set())
+                if o["ty"] != "none":
+                    tys[o["p"]].add(tm.get(o["ty"], o["ty"]))
+        for e in s["listed"]:
+            if e["kind"] == "full":
+                tys.setdefault(e["p"], set()).add(tm.get(e["ty"], e["ty"]))
+    if not tys or any(len(t) > 1 or not t <= DAQMX_OK for t in tys.values()):
+        return None
+    return {p: (b, (sorted(tys[p]) or [None])[0]) for b, p in enumerate(sorted(tys))}
+
+
+def to_fd(rec, seed=0, typemap=None, flip_be=None, daqmx=None):
     """GEN record -> encoder file description.  flip_be: None | "le" | "be" | "swap" (C15 variants)."""
     tm = typemap or {}
+    h = case_hash(rec)
+    widths = [8 + (h + 3 * b) % 3 for b in range(len(daqmx))] if daqmx else None
     segs = []
     for s in rec["file"]:
         be = bool(s["be"])
@@ -65,6 +94,14 @@ def to_fd(rec, seed=0, typemap=None, flip_be=None):
                  "ty": (None if o["ty"] == "none" else tm.get(o["ty"], o["ty"]))} for o in s["layout"]]
         segs.append({"meta": bool(s["meta"]), "newlist": bool(s["newList"]), "be": be, "il": bool(s["il"]),
                      "listed": listed, "objs": objs, "k": s["k"]})
+        if daqmx:
+            for o in objs:
+                if o["p"] in daqmx and daqmx[o["p"]][1]:
+                    b, t = daqmx[o["p"]]
+                    o["daqmx"] = {"kind": "fc", "widths": widths,
+                                  "scalers": [{"id": 0, "ty": t, "buf": b,
+                                               "off": (widths[b] - enc.size_of(t)) if (h + b) % 2 else 0}]}
+                    o["ty"] = None
     return {"segs": segs}
 
 
@@ -87,7 +124,7 @@ def _as_dict(x):
     return {} if isinstance(x, list) else x
 
 
-def compare_view(rec, e, view, seed, typemap=None, mode="eager"):
+def compare_view(rec, e, view, seed, typemap=None, mode="eager", daqmx=None):
     """Compare the projection of what the library returned with the specification's view.
     Returns list of (field, expected, observed) differences."""
     tm = typemap or {}
@@ -109,11 +146,13 @@ def compare_view(rec, e, view, seed, typemap=None, mode="eager"):
         ty = tys[c]
         ty = None if ty == "none" else tm.get(ty, ty)
         vals = e.values.get(c, [])
+        if daqmx:
+            vals = list(e.scaler_values.get(c, {}).get(0, []))
         if len(vals) != n:
             raise AssertionError("specification length %d and encoder length %d disagree for %s" % (n, len(vals), c))
         if got["len"] != n:
             diffs.append(("len:" + c, n, got["len"]))
-        if got["ty"] != ty:
+        if got["ty"] != (ty if not daqmx or ty is None else "DaqMxRawData"):
             diffs.append(("ty:" + c, ty, got["ty"]))
         if "error" in got:
             diffs.append(("read:" + c, "data", got["error"]))
@@ -138,17 +177,38 @@ def compare_view(rec, e, view, seed, typemap=None, mode="eager"):
     return diffs
 
 
-def read_modes(data, modes, TdmsFile):
+def project_daqmx(f):
+    """as proj.project_file, the data being the raw values of scaler 0 (read_data(scaled=False))"""
+    view = proj.project_file(f, data=False)
+    for g in f.groups():
+        for c in g.channels():
+            ch = view["chans"][c.path]
+            try:
+                arr = c.read_data(scaled=False)
+                if isinstance(arr, dict):
+                    arr = arr.get(0, [])
+                if arr is None:
+                    arr = []
+                if hasattr(arr, "dtype"):
+                    ch["dtype"] = proj.norm_dtype(arr.dtype)
+                ch["data"] = proj.elems(arr)
+            except Exception as ex:  # noqa
+                ch["error"] = "%s: %s" % (type(ex).__name__, ex)
+    return view
+
+
+def read_modes(data, modes, TdmsFile, daqmx=False):
     """-> {mode: view | {"exception": ...}}"""
     out = {}
+    project = project_daqmx if daqmx else proj.project_file
     for mode in modes:
         try:
             if mode == "eager":
                 f = TdmsFile.read(io.BytesIO(data), raw_timestamps=True)
-                out[mode] = proj.project_file(f)
+                out[mode] = project(f)
             elif mode == "lazy":
                 with TdmsFile.open(io.BytesIO(data), raw_timestamps=True) as f:
-                    out[mode] = proj.project_file(f)
+                    out[mode] = project(f)
             elif mode == "meta":
                 f = TdmsFile.read_metadata(io.BytesIO(data), raw_timestamps=True)
                 out[mode] = proj.project_file(f, data=False)
@@ -208,17 +268,21 @@ def replay_segments_case(case):
     seed = case["seed"]
     if not rec["file"]:
         return {"n": 0, "keys": [], "fails": [], "validated": 0}   # zero bytes are not a TDMS file
-    if case.get("widen"):
+    if case.get("widen") and not any(s_["il"] and o["has"] and o["ty"] == "String" for s_ in rec["file"] for o in s_["layout"]):
+        # (a lone string channel in an "interleaved" segment is a legal file; 260 of them are not)
         rec = widen(rec, case["widen"])
     tm = rotation(case.get("rot", 0)) if case.get("rot") else None
     fails = []
     n = 0
     keys = []
-    variants = case.get("be_variants") or [None]
-    for flip in variants:
-        fd = to_fd(rec, seed, tm, flip_be=flip)
+    variants = [(f_, None) for f_ in (case.get("be_variants") or [None])]
+    plan = daqmx_plan(rec, tm) if case.get("daqmx") else None
+    if plan:
+        variants.append((None, plan))
+    for flip, dq in variants:
+        fd = to_fd(rec, seed, tm, flip_be=flip, daqmx=dq)
         e = enc.encode(fd, seed)
-        res = read_modes(e.data, case["modes"], TdmsFile)
+        res = read_modes(e.data, case["modes"], TdmsFile, daqmx=bool(dq))
         for mode, view in res.items():
             n += 1
             if rec["status"] == "rejected":
@@ -233,13 +297,17 @@ def replay_segments_case(case):
                 fails.append((sig, {"case": rec, "seed": seed, "rot": case.get("rot", 0), "flip": flip, "mode": mode,
                                     "hex": e.data.hex(), "exception": view["exception"]}))
                 continue
-            diffs = compare_view(rec, e, view, seed, tm, mode)
+            diffs = compare_view(rec, e, view, seed, tm, mode, daqmx=dq)
+            if dq:
+                diffs = [d for d in diffs if not (d[0].startswith("dtype") and d[2] is None)]
             if mode == "meta":
                 diffs = [d for d in diffs if not d[0].startswith(("data", "dtype"))]
             if diffs:
-                fails.append((file_signature(rec, diffs, mode, tm),
-                              {"case": rec, "seed": seed, "rot": case.get("rot", 0), "flip": flip, "mode": mode,
-                               "hex": e.data.hex(), "diffs": diffs[:6]}))
+                sg = file_signature(rec, diffs, mode, tm)
+                if dq:
+                    sg["daqmx"] = True
+                fails.append((sg, {"case": rec, "seed": seed, "rot": case.get("rot", 0), "flip": flip, "mode": mode,
+                                   "daqmx": bool(dq), "hex": e.data.hex(), "diffs": diffs[:6]}))
     nontrivial = any(s["k"] > 0 for s in rec["file"])
     if nontrivial:
         keys.append(case_hash(rec))
